@@ -507,6 +507,22 @@ def parse_layout(result, interp=None):
     for p in lay.chain:
         lay.elements.extend(splice(per[p]))
     lay.per = per
+    # raw fields that the parser rejects unless they are empty
+    empties = set()
+    for it in flatten_checks(items):
+        cond = it[1]
+        if isinstance(cond, FieldV):
+            empties.add((id(cond.parser), cond.key))
+        elif isinstance(cond, Sym) and cond.op == 'len' and isinstance(cond.args[0], FieldV):
+            empties.add((id(cond.args[0].parser), cond.args[0].key))
+    for p in result.parsers:
+        for e in _all_elements(per[p]):
+            if e.kind == 'raw' and e.op is not None and (id(e.op.target), e.key) in empties:
+                e.extra['must_be_empty'] = True
+    if not result.parsers and not any(isinstance(x, Op) and x.target is None for x in flatten_items(items)):
+        # no parser at all: the input itself is the value (opaque payload)
+        if _mentions_input(result.value):
+            lay.elements.append(El('raw', size='rest', key=None))
     # nested parse calls on the input without a parser (variants, exact-size delegations)
     direct = []
     for it in flatten_items(items):
@@ -516,6 +532,51 @@ def parse_layout(result, interp=None):
     if not lay.chain and direct:
         lay.elements.extend(project(items, None, parse_op_element))
     return lay
+
+
+def _mentions_input(v, depth=0):
+    if depth > 6:
+        return False
+    if isinstance(v, InputV):
+        return True
+    if isinstance(v, tuple):
+        return any(_mentions_input(x, depth + 1) for x in v)
+    if isinstance(v, ObjV):
+        return any(_mentions_input(x, depth + 1) for x in (v.ctor_args or {}).values())
+    if isinstance(v, Sym):
+        return any(_mentions_input(x, depth + 1) for x in v.args)
+    return False
+
+
+def _all_elements(els):
+    for e in els:
+        yield e
+        if e.kind in ('alt', 'tryalt'):
+            for x in _all_elements(e.a):
+                yield x
+            for x in _all_elements(e.b):
+                yield x
+        elif e.kind in ('repeat', 'lp') and e.body:
+            for x in _all_elements(e.body):
+                yield x
+
+
+def flatten_checks(items):
+    for it in items:
+        if isinstance(it, tuple):
+            if it[0] == 'check':
+                yield it
+            elif it[0] == 'alt':
+                for x in flatten_checks(it[2]):
+                    yield x
+                for x in flatten_checks(it[3]):
+                    yield x
+            elif it[0] == 'loop':
+                for x in flatten_checks(it[2]):
+                    yield x
+            elif it[0] == 'try':
+                for x in flatten_checks(it[2]):
+                    yield x
 
 
 def flatten_items(items):
